@@ -57,6 +57,30 @@ def build(flavour, kind):
                 self.calls += 1         # state kept on the per-request instance
                 return a if self.calls == 1 else -1
         d.registry.view(V, context='context' if flavour == 'view_ctx' else None)
+    elif flavour in ('view_typed', 'view_schema'):
+        val = vpd.PydanticValidator() if flavour == 'view_typed' else vjs.JsonSchemaValidator()
+
+        class VV(ViewMixin):
+            def __init__(self, context=None):
+                super().__init__()
+                self.context = context
+                Ctx.alive += 1
+
+            def __del__(self):
+                Ctx.alive -= 1
+        if flavour == 'view_typed':
+            def m(self, a: int):
+                return a
+            VV.m = val.validate(m)
+        else:
+            def m(self, a):
+                return a
+            VV.m = val.validate(m, schema={'type': 'object', 'properties': {'a': {'type': 'integer'}}, 'required': ['a']})
+        d.registry.view(VV, context='context')
+    elif flavour == 'func_exc':
+        def m(ctx, a):
+            raise ValueError('boom %r' % (ctx,))
+        d.add(m, 'm', context='ctx')
     elif flavour == 'schema':
         val = vjs.JsonSchemaValidator()
 
@@ -86,7 +110,10 @@ def run(scn, loop):
         ctx = Ctx()
         ret = loop.run_until_complete(d.dispatch(text, context=ctx)) if scn['kind'] == 'async' else d.dispatch(text, context=ctx)
         doc = json.loads(ret[0]) if ret is not None else None
-        ok = doc is not None and all(x.get('result') == 5 for x in (doc if isinstance(doc, list) else [doc]))
+        if scn['flavour'] == 'func_exc':
+            ok = doc is not None and doc.get('error', {}).get('code') == -32000 and 'data' not in doc['error']
+        else:
+            ok = doc is not None and all(x.get('result') == 5 for x in (doc if isinstance(doc, list) else [doc]))
         del doc
         del ctx, ret
         gc.collect()
